@@ -529,7 +529,8 @@ def run_property(pid, mod, tier, seed, replay=None):
                 else:
                     ctx.extra["torch_grad_mode"] = "default"
                     mod.run(ctx)
-                    if ctx.thorough and nograd is None and not ctx.failures and not ctx.disagreements:
+                    if ctx.thorough and nograd is None and not ctx.failures and not ctx.disagreements and ctx.elapsed() < 270:
+                        # (checks whose ordinary thorough pass is long keep to one pass; their no_grad regime is quick seed 2)
                         ctx.extra["torch_grad_mode"] = "default, then a second pass under no_grad"
                         with torch.no_grad():
                             mod.run(ctx)
